@@ -360,7 +360,10 @@ class Result:
         self.violations.append(dict(tag=tag, event=event, extra=extra))
 
     def finish(self, extra_cov=None):
-        os.makedirs(os.path.join(BASE_OUT, "violations"), exist_ok=True)
+        scratch = REPO != "/repo"
+        # runs aimed at a scratch copy (seeded changes, mutants) never touch the evidence and violation files of the real tree
+        viol_dir = os.path.join(BASE_OUT, "violations" if not scratch else "violations-scratch-" + hashlib.sha1(REPO.encode()).hexdigest()[:10])
+        os.makedirs(viol_dir, exist_ok=True)
         known = load_known()
         nviol = 0
         printed_known = set()
@@ -375,7 +378,7 @@ class Result:
                 continue
             nviol += 1
             if k < 20:
-                path = os.path.join(BASE_OUT, "violations", f"{self.pid}-{k}.json")
+                path = os.path.join(viol_dir, f"{self.pid}-{k}.json")
                 json.dump(dict(property=self.pid, tier=self.tier, seed=self.seed, **v), open(path, "w"), indent=1)
                 print(f"VIOLATION property={self.pid} replay={path}")
                 k += 1
@@ -396,8 +399,12 @@ class Result:
         ev = dict(property_id=self.pid, tier=self.tier, seed=self.seed, level=self.level, coverage=cov,
                   assumptions=self.assumptions or ["TLC/SANY and the CommunityModules Json/IOUtils modules", "harness plumbing (limb/byte formatting, argument passing)", "the TLA+ axioms of spec/*.tla"],
                   wall_s=round(time.time() - self.t0, 1), violations=nviol)
-        os.makedirs(os.path.join(VERIF, "evidence"), exist_ok=True)
-        json.dump(ev, open(os.path.join(VERIF, "evidence", f"{self.pid}.json"), "w"), indent=1)
+        ev_dir = os.path.join(VERIF, "evidence") if not scratch else os.path.join(BASE_OUT, "evidence-scratch")
+        os.makedirs(ev_dir, exist_ok=True)
+        json.dump(ev, open(os.path.join(ev_dir, f"{self.pid}.json"), "w"), indent=1)
+        import collections
+        tags = collections.Counter(v["tag"] for v in self.violations if match_known(known, self.pid, v) is None)
+        print("TAGS " + json.dumps(dict(tags)))
         log(f"[{self.pid}] {self.tier}: {self.vectors} vectors, {self.events} events, {nviol} violations, known {self.known}, {ev['wall_s']}s")
         return 1 if nviol else 0
 
